@@ -84,6 +84,7 @@ func (s *channelState) open() {
 }
 
 func (s *channelState) close() {
+	vtr("setclosed", s.id, 0, 0)
 	// Try to close channel
 	ok := s.closed.CompareAndSwap(false, true)
 	if !ok {
